@@ -7,8 +7,13 @@ from ..ctx import load_spec
 from ..report import Result, Broken
 
 
+FACTS = {}
+
+
 def scan(mod, res=None):
     facts = rules.analyse_module(mod)
+    FACTS.clear()
+    FACTS.update(facts)
     sites = []
     for name in sorted(mod.functions):
         fn = mod.functions[name]
@@ -19,7 +24,7 @@ def scan(mod, res=None):
             o = pf.val_origin(ptr)
             loc = mod.loc(ins.dbg)
             sites.append({'fn': name, 'kind': kind, 'align': a, 'guarantee': g, 'origin': sorted(o) if o else None,
-                          'loc': loc, 'width': wname, 'ins': ins})
+                          'loc': loc, 'width': wname, 'ins': ins, 'ptr': ptr})
         for ins, kind, need, g, desc in rules.escape_sites(mod, fn, pf):
             sites.append({'fn': name, 'kind': kind, 'align': need, 'guarantee': g, 'origin': ['escape'],
                           'loc': mod.loc(ins.dbg), 'width': desc, 'ins': ins})
@@ -41,6 +46,11 @@ def run(ctx, tier, res, tag=''):
             continue
         if s['origin'] and any(o.startswith('param:') or o == 'loaded' for o in s['origin']):
             n_wire += 1
+        if s['align'] > s['guarantee'] and s['kind'] in ('load', 'store', 'memdst', 'memsrc') and \
+                rules.alignment_guarded(mod, mod.functions[s['fn']], FACTS[s['fn']], s['ins'], s['ptr'], s['align']):
+            res.ok()
+            res.count('typed accesses behind a run-time alignment test (accepted)' + tag)
+            continue
         if s['align'] > s['guarantee']:
             fileb = (FC.rel(loc[0]) if loc else '?').split('/')[-1]
             k = (fileb, s['fn'], s['kind'], s['width'])
